@@ -90,7 +90,10 @@ PROG_Steps == <<
   Cf("b", "dil", "D", "W", R(1, 20), "mol", "L", I(2), "L"),      \* from a source with a finite capacity: the new container has none
   Tr("a", "-", "c", "-", I(4), "L"),         \* overflows the 10-unit container the recipe itself created (7 + 4): bake must refuse
   Fl("p3", "plate", "W", "L", I(5)),         \* wells A1, A2, B3 get 4; A3 3; B1 2; B2 5 (grouped by amount in the instruction)
-  Dl("a", "N", "g", "L", "W", R(1, 4))>>     \* a weight-per-volume target (250 g/L after instantiation; 375 g/L before)
+  Dl("a", "N", "g", "L", "W", R(1, 4)),      \* a weight-per-volume target (250 g/L after instantiation; 375 g/L before)
+  \* more of a dilution than the source's own vessel could hold (24 units out of the 20-unit container b): the new container is
+  \* not the source's vessel
+  Cf("b", "dil", "D", "W", R(1, 20), "mol", "L", I(24), "L")>>
 PROG_Alphabet == PROG_Steps \o <<Ss("s1"), Es("s1"), Ss("s2"), Bk>>
 \* STAGE: refused bakes in the middle of a program.  p is declared explicitly and used late, so that a bake in between is
 \* refused (declared but unused) and must leave the open stage open: the steps added afterwards belong to it (C09, C15, C16)
